@@ -73,11 +73,30 @@ def check_funnel(chk, F, cls):
     lookups = F.funcs(cls, "findSegment")
     look1 = next(f for f in lookups if len(f["params"]) == 1)
     look2 = next(f for f in lookups if len(f["params"]) == 2)
+    def lit_null(x):
+        x = strip_copy(x)
+        while isinstance(x, dict) and x.get("k") == "cast":
+            x = strip_copy(x["e"])
+        return isinstance(x, dict) and x.get("k") == "lit" and x.get("v") in ("nullptr", "0")
+
     for f, lk, nlk in ((scalar_int, look1, 1), (hint_int, look2, 2)):
         chk.saw(f)
         sc = scope_with_locals(f)
         rets = ret_nodes(f)
         main = [r for r in rets if strip_copy(r["e"]).get("k") == "call" and callee(strip_copy(r["e"])).get("fid") == horner["fid"]]
+        if f is scalar_int and not main and len(rets) == 1:
+            # the plain route written as a delegation to the hinted route with a null hint: the hinted lookup with a null
+            # hint is the plain lookup (C03-R3, 'null hint delegates'), so the route's obligations are the hinted route's
+            c = strip_copy(rets[0]["e"])
+            if c.get("k") == "call" and callee(c).get("fid") == hint_int["fid"] and len(c["args"]) == 3:
+                a0, a2 = canon(c["args"][0], sc), canon(c["args"][2], sc)
+                okd = a0 == "$p0" and lit_null(c["args"][1]) and a2 == "$p1"
+                chk.ob("C03-R1", "%s::evaluate/2 evaluates piece findSegment(t) at local time t - b[idx] through the Horner routine" % cls, okd, loc(f),
+                       "delegates to the hinted route with (t, nullptr, order): %s" % pp(c)[:80], construct="%s/evaluate2/funnel" % cls)
+                chk.ob("C03-R6", "%s::evaluate/2 returns zero exactly when order >= coefficient count" % cls, okd, loc(f), "inherits the guard of the hinted route", construct="%s/evaluate2/zero" % cls)
+                continue
+        if len(main) == 0:
+            raise Broken("%s::evaluate/%d: no return through the Horner routine and no recognised delegation" % (cls, len(f["params"])))
         ok = len(main) == 1
         det = ""
         if ok:
@@ -129,7 +148,31 @@ def check_funnel(chk, F, cls):
     body = batch_int["body"]["body"]
     loops = [s for s in body if s.get("k") == "rfor"]
     ok = len(loops) == 1
-    if ok:
+    tr = [n for n in walk(batch_int["body"]) if n.get("k") == "call" and callee(n).get("name") == "transform" and callee(n).get("ns") == "std"]
+    if not loops and len(tr) == 1 and len(tr[0]["args"]) == 4:
+        # std::transform(t.begin(), t.end(), back_inserter(results), [..](double x) { return evaluate(x, order); })
+        sc = Scope(batch_int)
+        a = [strip_copy(x) for x in tr[0]["args"]]
+        rng = a[0].get("k") == "call" and callee(a[0]).get("name") == "begin" and canon(a[0]["obj"], sc) == "$p0" and a[1].get("k") == "call" and callee(a[1]).get("name") == "end" and canon(a[1]["obj"], sc) == "$p0"
+        ins = a[2].get("k") == "call" and callee(a[2]).get("name") == "back_inserter"
+        lam = a[3] if a[3].get("k") == "lambda" else None
+        okl = False
+        if lam is not None and len(lam.get("specs", [])) == 1:
+            sp_ = lam["specs"][0]
+            rr = [n for n in walk(sp_["body"]) if n.get("k") == "return"]
+            if len(rr) == 1 and len(sp_.get("params", [])) == 1:
+                sc.bind_opaque(sp_["params"][0]["id"], "%elem")
+                c = strip_copy(rr[0]["e"])
+                okl = c.get("k") == "call" and callee(c).get("fid") == scalar_int["fid"] and [canon(x, sc) for x in c["args"]] == ["%elem", "$p1"]
+        rets = [x_ for x_ in body if x_.get("k") == "return"]      # the function's own returns, not the lambda's
+        okres = ins and len(rets) == 1 and strip_copy(rets[0]["e"]).get("id") == strip_copy(a[2]["args"][0]).get("id")
+        chk.ob("C03-R1", "%s batch evaluation = scalar evaluation of each time in order" % cls, bool(rng and okl and okres), loc(batch_int), "std::transform over the whole input, appending", construct=cls + "/batch")
+        loops = None
+    elif not loops:
+        raise Broken("%s batch evaluation: neither a range-for nor a std::transform over the input" % cls)
+    if loops is None:
+        pass
+    elif ok:
         lp = loops[0]
         sc = Scope(batch_int)
         sc.bind_opaque(lp["var"]["id"], "%elem")
@@ -143,7 +186,8 @@ def check_funnel(chk, F, cls):
             rets = ret_nodes(batch_int)
             okb = okb and len(rets) == 1 and strip_copy(rets[0]["e"]).get("id") == res.get("id")
         ok = okr and okb
-    chk.ob("C03-R1", "%s batch evaluation = scalar evaluation of each time in order" % cls, ok, loc(batch_int), "", construct=cls + "/batch")
+    if loops is not None:
+        chk.ob("C03-R1", "%s batch evaluation = scalar evaluation of each time in order" % cls, ok, loc(batch_int), "", construct=cls + "/batch")
     # Segment handles
     seg = cls + "::Segment"
     se = F.funcs(seg, "evaluate")
@@ -376,19 +420,27 @@ def check_formulas(chk, F, cls):
         L = I.loops[0]
         k = L.var
         od = K - d
-        car = L.carried.get("result")
-        eff = [e for e in L.effects if e.target == "$result"]
+        # the loop-carried accumulator, whatever it is called
+        cars = [(nm, v) for nm, v in L.carried.items() if isinstance(v[1], Vec)]
+        car = cars[0][1] if len(cars) == 1 else None
+        eff = [e for e in L.effects if car is not None and e.target == "$" + cars[0][0]]
         ok = car is not None and len(eff) == 1
         if ok:
             cont = [a for a in car[1].t][0][0]
             init_ok = car[1].add(Vec.atom((cont, sp.expand(seg * od + od - 1))), -1).is_zero()
-            want = car[0].scale(t).add(Vec.atom((cont, sp.expand(seg * od + k))))
-            rec_ok = eff[0].value.add(want, -1).is_zero()
-            rng_ok = sym.is_zero(L.lo - (od - 2)) and L.hi == 0 and L.cond_op == ">=" and L.step == -1
+            # the table row read in the step, as a function of the loop variable (k itself, or an absolute row index)
+            step_atoms = [a for a in eff[0].value.t if a[0] == cont]
+            rows_ok = len(step_atoms) == 1 and sym.is_zero(sp.diff(step_atoms[0][1], k) - 1)
+            row = step_atoms[0][1] if rows_ok else k
+            want = car[0].scale(t).add(Vec.atom((cont, sp.expand(row))))
+            rec_ok = rows_ok and eff[0].value.add(want, -1).is_zero()
+            shift = sp.expand(row - k)
+            rng_ok = (rows_ok and sym.is_zero(sp.expand(L.lo + shift) - sp.expand(seg * od + od - 2)) and L.hi is not None and sym.is_zero(sp.expand(L.hi + shift) - sp.expand(seg * od))
+                      and L.cond_op == ">=" and L.step == -1)
             ret_ok = isinstance(ret, Vec) and ret.add(eff[0].value, -1).is_zero()
             idx_ok = cont == "derivative_coeffs_[%s]" % sp.sstr(sp.expand(d)) or cont.endswith("[%s]" % sp.sstr(d))
             ok = init_ok and rec_ok and rng_ok and ret_ok and idx_ok
-            det = "init %r; step %r; k from %s down to %s; rows of %s" % (car[1], eff[0].value, L.lo, L.hi, cont)
+            det = "init %r; step %r; rows from %s down to %s; rows of %s" % (car[1], eff[0].value, sp.expand(L.lo + shift), sp.expand(L.hi + shift) if L.hi is not None else None, cont)
     chk.ob("C03-R4", "%s Horner: result = c_top; result = result*t + c_k for k = top-1..0 over rows [seg*m, seg*m+m) of the order-d table" % cls, ok, loc(h), det, construct=cls + "/horner/recurrence")
     # lazy builder
     bld = F.func1(cls, "buildDerivativeCoefficients")
@@ -401,19 +453,29 @@ def check_formulas(chk, F, cls):
         dv = L.var
         rows = [e for e in L.effects if isinstance(e.value, Vec)]
         copies = [e for e in L.effects if e.op == "=" and isinstance(e.value, tuple) and e.value[0] == "copy"]
-        ok = len(rows) == 1 and len(copies) == 1 and L.lo == 0 and sym.is_zero(L.hi - K) and L.step == 1
+        ok = len(rows) == 1 and len(copies) == 1 and L.lo == 0 and sym.is_zero(L.hi - K) and L.step == 1 and L.cond_op == "<"
         if ok:
             e = rows[0]
-            inner = L.inner[0] if L.inner else None
-            sv = inner.var if inner else None
-            kk = inner.inner[0].var if inner and inner.inner else None
-            ok = inner is not None and kk is not None
+            # the two loops nested inside the order loop, in whichever order: the one over [0, N) is the piece index,
+            # the one over [0, K - d) the power index
+            chain = []
+            cur = L
+            while cur.inner:
+                nxt = [x for x in cur.inner if any(y is e for y in x.effects)]
+                if len(nxt) != 1:
+                    break
+                cur = nxt[0]
+                chain.append(cur)
+            od = K - dv
+            unit = [x for x in chain if x.lo == 0 and x.step == 1 and x.cond_op == "<"]
+            segL = [x for x in unit if sym.is_zero(x.hi - nseg)]
+            powL = [x for x in unit if sym.is_zero(x.hi - od)]
+            ok = len(chain) == 2 and len(segL) == 1 and len(powL) == 1 and segL[0] is not powL[0]
             if ok:
-                od = K - dv
+                sv, kk = segL[0].var, powL[0].var
                 want_key = sp.expand(sv * od + kk)
                 want = Vec.atom(("coefficients_", sp.expand(sv * K + kk + dv))).scale(FFn(kk + dv, dv))
-                ok = (sym.is_zero(e.key[0] - want_key) and e.value.add(want, -1).is_zero() and inner.lo == 0 and sym.is_zero(inner.hi - nseg)
-                      and inner.inner[0].lo == 0 and sym.is_zero(inner.inner[0].hi - od) and copies[0].target == "derivative_coeffs_[%s]" % sp.sstr(dv) and copies[0].value[1] == e.target)
+                ok = (sym.is_zero(e.key[0] - want_key) and e.value.add(want, -1).is_zero() and copies[0].target == "derivative_coeffs_[%s]" % sp.sstr(dv) and copies[0].value[1] == e.target)
                 det = "row %s = %r ; stored as %s" % (e.key[0], e.value, copies[0].target)
     chk.ob("C03-R4", "%s builder: row k of piece seg in the order-d table = ff(k+d, d) * c_{k+d}, all d, pieces and k" % cls, ok, loc(bld), det, construct=cls + "/builder/rows")
     # derivative(): same rows, same breakpoints
@@ -453,22 +515,28 @@ def check_formulas(chk, F, cls):
     chk.saw(tb)
     I, env, ret = interp(tb, oracle=lambda s, c, I_: False)
     st = [e for e in I.effects if e.target == "derivative_factor_table_"]
-    ok0 = [e.op for e in st][:2] == ["resize", "setZero"]
+    ops0 = [e.op for e in st][:2]
+    # sized K x K and zeroed before the recurrence fills the lower triangle (resize + setZero, or the sizing setZero)
+    ok0 = ops0 == ["resize", "setZero"] or (ops0[:1] == ["setZero"] and st[0].value is not None and len(st[0].value) == 2) or (ops0 == ["setZero", "resize"])
+    if ok0:
+        rs = [e for e in st if e.op in ("resize", "setZero") and e.value and len(e.value) == 2]
+        ok0 = bool(rs) and sym.is_zero(rs[0].value[0] - K) and sym.is_zero(rs[0].value[1] - K)
     ok = len(I.loops) == 1 and ok0
     det = ""
     if ok:
         L = I.loops[0]
         nv = L.var
         inner = L.inner[0] if L.inner else None
-        ok = inner is not None and "acc" in inner.carried
+        cars = [(nm, v) for nm, v in (inner.carried.items() if inner is not None else []) if isinstance(v[1], sp.Basic)]
+        ok = inner is not None and len(cars) == 1
         if ok:
             kv = inner.var
-            acc, init = inner.carried["acc"]
+            acc, init = cars[0][1]
             e0 = [e for e in L.effects if e.target == "derivative_factor_table_" and len(e.key) == 2 and e.key[1] == 0]
             ek = [e for e in inner.effects if e.target == "derivative_factor_table_"]
             ok = (init == 1 and len(e0) == 1 and e0[0].value == 1 and sym.is_zero(e0[0].key[0] - nv) and len(ek) == 1 and sym.is_zero(ek[0].key[0] - nv) and sym.is_zero(ek[0].key[1] - kv)
                   and sym.is_zero(ek[0].value - acc * (nv - kv + 1)) and inner.lo == 1 and sym.is_zero(inner.hi - nv) and inner.cond_op == "<=" and L.lo == 0 and sym.is_zero(L.hi - K))
-            det = "f(n,0)=1; f(n,k)=f(n,k-1)*(%s) for k=1..n; zero above the diagonal (setZero first)" % sp.sstr(sp.expand(nv - kv + 1))
+            det = "f(n,0)=1; f(n,k)=f(n,k-1)*(%s) for k=1..n; zero above the diagonal (zeroed first)" % sp.sstr(sp.expand(nv - kv + 1))
     chk.ob("C03-R5", "%s dynamic factor table: f(n,0)=1, f(n,k)=f(n,k-1)(n-k+1), 0 for k>n, n < coefficient count" % cls, ok, loc(tb), det, construct=cls + "/dynamic-table")
 
 
